@@ -143,7 +143,7 @@ class Pregex():
         any further attempt at matching a string will be making use of the \
         compiled RegEx pattern.
         '''
-        self.__compiled = _re.compile(self.get_pattern(), flags=self.__flags)
+        self.__compiled = _re.compile(self.__pattern, flags=self.__flags)
 
 
     @staticmethod
